@@ -41,6 +41,9 @@
 #include <GeographicLib/SphericalHarmonic2.hpp>
 #include <GeographicLib/CircularEngine.hpp>
 #include <GeographicLib/Math.hpp>
+#include <GeographicLib/DAuxLatitude.hpp>
+#include <GeographicLib/AuxAngle.hpp>
+#include <GeographicLib/DST.hpp>
 
 namespace c13 {
 using namespace GeographicLib;
@@ -155,9 +158,11 @@ template<class P> void reg_azi(const std::string& p) {
 }
 
 void register_file_entries();
+void register_more();          // C13_entries2.hpp
 inline void register_all() {
   if (!entries().empty()) return;
   register_file_entries();
+  register_more();
   // ---- geodesics: series, exact=true flag, GeodesicExact ----
   reg_geod<Geodesic>("GeodS", &GS);
   reg_geod<Geodesic>("GeodX", &GX);
@@ -258,16 +263,16 @@ inline void register_all() {
   add("EllipticFunction.Reset", {0.3, 0.2}, 3, [](X x, O o) { EllipticFunction e; e.Reset(x[0], x[1]); o[0] = e.K(); o[1] = e.E(); o[2] = e.Pi(); });
   // ---- polygon area ----
   add("PolygonArea.AddPoint", {40, 10}, 2, [](X x, O o) { PolygonArea p(GS()); p.AddPoint(10, 10); p.AddPoint(x[0], x[1]); p.AddPoint(20, 40); p.Compute(false, true, o[0], o[1]); });
-  add("PolygonArea.TestPoint", {40, 10}, 2, [](X x, O o) { PolygonArea p(GS()); p.AddPoint(10, 10); p.AddPoint(20, 40); p.TestPoint(x[0], x[1], false, true, o[0], o[1]); });
+  add("PolygonArea.TestPoint", {40, 10}, 3, [](X x, O o) { PolygonArea p(GS()); p.AddPoint(10, 10); p.AddPoint(20, 40); o[2] = p.TestPoint(x[0], x[1], false, true, o[0], o[1]); });
   add("PolygonArea.AddEdge", {30, 1e6}, 2, [](X x, O o) { PolygonArea p(GS()); p.AddPoint(10, 10); p.AddEdge(x[0], x[1]); p.AddPoint(20, 40); p.Compute(false, true, o[0], o[1]); });
-  add("PolygonArea.TestEdge", {30, 1e6}, 2, [](X x, O o) { PolygonArea p(GS()); p.AddPoint(10, 10); p.AddPoint(20, 40); p.TestEdge(x[0], x[1], false, true, o[0], o[1]); });
+  add("PolygonArea.TestEdge", {30, 1e6}, 3, [](X x, O o) { PolygonArea p(GS()); p.AddPoint(10, 10); p.AddPoint(20, 40); o[2] = p.TestEdge(x[0], x[1], false, true, o[0], o[1]); });
   add("PolygonAreaExact.AddPoint", {40, 10}, 2, [](X x, O o) { PolygonAreaExact p(GE()); p.AddPoint(10, 10); p.AddPoint(x[0], x[1]); p.AddPoint(20, 40); p.Compute(false, true, o[0], o[1]); });
   add("PolygonAreaRhumb.AddPoint", {40, 10}, 2, [](X x, O o) { PolygonAreaRhumb p(RS()); p.AddPoint(10, 10); p.AddPoint(x[0], x[1]); p.AddPoint(20, 40); p.Compute(false, true, o[0], o[1]); });
   add("PolygonArea.Polyline", {40, 10}, 1, [](X x, O o) { PolygonArea p(GS(), true); double a; p.AddPoint(10, 10); p.AddPoint(x[0], x[1]); p.AddPoint(20, 40); p.Compute(false, true, o[0], a); });
   // ---- intersections (watchdog: these iterate) ----
   add("Intersect.Closest", {0, 0, 45, 1, 2, 135}, 2, [](X x, O o) { auto p = IX().Closest(x[0], x[1], x[2], x[3], x[4], x[5]); o[0] = p.first; o[1] = p.second; });
   add("IntersectExact.Closest", {0, 0, 45, 1, 2, 135}, 2, [](X x, O o) { auto p = IXE().Closest(x[0], x[1], x[2], x[3], x[4], x[5]); o[0] = p.first; o[1] = p.second; });
-  add("Intersect.Segment", {0, 0, 2, 2, 0, 2, 2, 0}, 2, [](X x, O o) { int sm; auto p = IX().Segment(x[0], x[1], x[2], x[3], x[4], x[5], x[6], x[7], sm); o[0] = p.first; o[1] = p.second; });
+  add("Intersect.Segment", {0, 0, 2, 2, 0, 2, 2, 0}, 3, [](X x, O o) { int sm = SI; Fin f{[&] { seti(o, 2, sm); }}; auto p = IX().Segment(x[0], x[1], x[2], x[3], x[4], x[5], x[6], x[7], sm); o[0] = p.first; o[1] = p.second; });
   add("Intersect.Next", {10, 20, 45, 135}, 2, [](X x, O o) { auto p = IX().Next(x[0], x[1], x[2], x[3]); o[0] = p.first; o[1] = p.second; });
   // ---- formatting ----
   add("DMS.Encode", {40.123}, 3, [](X x, O o) { sets(o, 0, DMS::Encode(x[0], DMS::SECOND, 3, DMS::LATITUDE)); sets(o, 1, DMS::Encode(x[0], DMS::DEGREE, 5, DMS::AZIMUTH)); sets(o, 2, DMS::Encode(x[0], 6)); });
